@@ -13,7 +13,8 @@ LEVEL_TEXT = ('Kernel-checked theorems (Props/C18.v): for EVERY symmetric graph 
               'model returns an independent and maximal set (invariant proof, any number of vertices), and the parallel '
               'maximal-independent-set model (any weight type) returns only maximal independent sets and, with integer weights '
               'and index tie-break, always returns within its fuel n+2 (every pass decides the largest undecided vertex); the '
-              'MIS-based colouring returns within its fuel and is a proper colouring with colours 0..K-1 on every symmetric graph; for all '
+              'MIS-based colouring returns within its fuel and is a proper colouring with colours 0..K-1 on every symmetric graph; '
+              'connected_components returns within its fuel and labels two vertices equally exactly when they are connected; for all '
               'symmetric graphs on <= 4 vertices (bound stated in the theorems, decided by vm_compute over the '
               'complete enumeration) the models of parallel MIS, distance-2 MIS, the three colourings, connected '
               'components, breadth-first search and Bellman-Ford are valid (independent/maximal, proper and gap-free, '
@@ -21,7 +22,7 @@ LEVEL_TEXT = ('Kernel-checked theorems (Props/C18.v): for EVERY symmetric graph 
               'out of fuel.  The models are pinned to the working-tree kernels by exact agreement on every symmetric '
               'graph on <= 5 vertices (6 in the thorough tier) with and without self loops, all seeds/centres, tied '
               'integer weights; csgraph-based oracles decide the property on the public functions.')
-LEVEL_NOTE = ('Unbounded theorems exist for serial and parallel MIS and the MIS colouring; the others are bounded (<= 4 vertices) + correspondence. '
+LEVEL_NOTE = ('Unbounded theorems exist for serial and parallel MIS, the MIS colouring and connected components; the others are bounded (<= 4 vertices) + correspondence. '
               'Balanced Bellman-Ford / Lloyd clustering: oracle only.  symmetric_rcm on disconnected graphs read an '
               'uninitialised array (F5), repaired by a fix: commit.')
 RULE = ('complete enumeration of symmetric graphs on 1..5 vertices (1..6 thorough), each without and with stored '
@@ -30,7 +31,7 @@ RULE = ('complete enumeration of symmetric graphs on 1..5 vertices (1..6 thoroug
         'functions with NumPy-random weights -> validity oracles (scipy.sparse.csgraph).  Non-trivial: the graph has '
         'an edge; distinct = distinct (algorithm, graph, arguments).')
 TRUSTED = ['scipy.sparse.csgraph (oracle side only)', 'NumPy global RNG for the public randomised functions']
-PARTIAL = ['MIS-k, JP / LDF colourings, components, BFS, Bellman-Ford: theorems bounded to <= 4 vertices',
+PARTIAL = ['MIS-k, JP / LDF colourings, BFS, Bellman-Ford: theorems bounded to <= 4 vertices',
            'balanced Bellman-Ford, Lloyd clustering, center_nodes, floyd_warshall: oracle only']
 REFUTED = []
 HEADER = ('From Coq Require Import ZArith List.\nImport ListNotations.\n'
